@@ -1,8 +1,15 @@
 #!/bin/bash
-# try_mutant.sh <ID> <patch.diff> [tier]: apply to /repo, run the check, revert
-id=$1; patch=$2; tier=${3:-quick}
-cd /repo && git apply $patch || { echo "PATCH DOES NOT APPLY to /repo"; exit 2; }
-cd /verif && VERIF_EVIDENCE_DIR=/verif/.work/evidence-mut timeout 3000 ./bin/vf check $id --tier $tier > .work/mut-$id.log 2>&1; rc=$?
-git -C /repo checkout -- . ; git -C /repo status --short | head -3
-grep -E "^(VIOLATION|INCONCLUSIVE|KNOWN-FINDING)" .work/mut-$id.log | cut -c1-300 | head -8
-echo "mutant $id rc=$rc: $(tail -1 .work/mut-$id.log | cut -c1-150)"
+# try_mutant.sh <ID> <patch.diff> [tier]: apply the patch to a scratch worktree of /repo's HEAD and run the
+# registered check against it from a snapshot of /verif (VERIF_REPO, VERIF_DIR), then remove both.
+# Neither /repo nor /verif is touched or depended on while the check runs, so this can run next to other
+# work. (Equivalent to: git -C /repo apply; ./bin/vf check; git -C /repo checkout -- .)
+id=$1; patch=$(readlink -f $2); tier=${3:-quick}
+wt=/tmp/mutrepo-$$; snap=/tmp/mutverif-$$
+git -C /repo worktree add --detach $wt HEAD >/dev/null 2>&1 || { echo "cannot create scratch worktree"; exit 2; }
+trap 'git -C /repo worktree remove --force $wt >/dev/null 2>&1; rm -rf $snap' EXIT
+(cd $wt && git apply $patch) || { echo "PATCH DOES NOT APPLY to /repo HEAD"; exit 2; }
+mkdir -p $snap && rsync -a --exclude .work --exclude replays --exclude .git --exclude seeded --exclude engine --exclude evidence /verif/ $snap/
+log=/verif/.work/mut-$id-$$.log
+cd $snap && VERIF_DIR=$snap VERIF_REPO=$wt VERIF_EVIDENCE_DIR=$snap/.work/evidence timeout 3000 ./bin/vf check $id --tier $tier > $log 2>&1; rc=$?
+grep -E "^(VIOLATION|INCONCLUSIVE|KNOWN-FINDING)" $log | sed "s|$snap|/verif|g" | cut -c1-300 | head -8
+echo "mutant $id rc=$rc: $(tail -1 $log | cut -c1-150)"
